@@ -155,6 +155,22 @@ Proof.
   - now rewrite blen_be.
 Qed.
 
+(* the same with the width given as a number (so that literals match syntactically) *)
+Lemma rd_le_at pre k kN v suf off :
+  off = blen pre -> kN = N.of_nat k -> v < 256 ^ kN ->
+  rd_le (pre ++ le k v ++ suf) off kN = Ok v.
+Proof. intros -> -> Hv. apply rd_le_app; auto. Qed.
+Lemma rd_le_head k kN v suf :
+  kN = N.of_nat k -> v < 256 ^ kN -> rd_le (le k v ++ suf) 0 kN = Ok v.
+Proof. intros. apply (rd_le_at [] k kN v suf 0); auto. Qed.
+Lemma rd_be_at pre k kN v suf off :
+  off = blen pre -> kN = N.of_nat k -> v < 256 ^ kN ->
+  rd_be (pre ++ be k v ++ suf) off kN = Ok v.
+Proof. intros -> -> Hv. apply rd_be_app; auto. Qed.
+Lemma rd_be_head k kN v suf :
+  kN = N.of_nat k -> v < 256 ^ kN -> rd_be (be k v ++ suf) 0 kN = Ok v.
+Proof. intros. apply (rd_be_at [] k kN v suf 0); auto. Qed.
+
 Lemma find0_aux_app name suf pos :
   forallb (fun b => negb (b =? 0)) name = true ->
   find0_aux (name ++ 0 :: suf) pos = pos + blen name.
